@@ -290,10 +290,20 @@ def linesOfText (s : Str) : Option (List Line) :=
     | some (p, v) => some ⟨p, v⟩
     | none => none)
 
+/-- the lines before the first one without `=` -/
+def goodPrefix : List Str → List Line
+  | [] => []
+  | l :: rest => match splitOnce '=' l with | some (p, v) => ⟨p, v⟩ :: goodPrefix rest | none => []
+
+/-- `SessionDescription::parse`. Errors are reported in LINE ORDER: when some line has no `=`, an error
+raised by a line before it (bad `v=`, `o=`, `t=`, `m=`) wins over "invalid SDP line". -/
 def parseText (s : Str) : Except PErr Desc :=
   match linesOfText s with
   | some ls => parse ls
-  | none => .error .invalidLine
+  | none =>
+    match parseLines PState.init (goodPrefix (((textLines s).map trim).filter (fun l => !l.isEmpty))) with
+    | .error e => .error e
+    | .ok _ => .error .invalidLine
 
 /-! ### normal form -/
 
